@@ -18,32 +18,41 @@ EXTRACT = "ExC08"
 TECHNIQUE = (
     "Coq proof (rstrip/partition/lstrip/index lemmas, an induction over the quote-doubled directory string generalising the number "
     "of pending quotes and the accumulator for the PWD parser loop, reuse of the C06 framing theorem and the C02 resolver) about "
-    "executable models of the eleven name codecs; tied to the code by differential correspondence on a metacharacter-biased name "
-    "generator (quote-bearing names are ordinary cases), a bounded-exhaustive stream over the PWD formatter/parser pair, and by "
-    "wire-level sessions over loopback comparing the backend tree with the expected one after every operation"
+    "executable models of the eleven name codecs, composed with the sequential session model Model/Session.v (client line -> "
+    "parse_command -> event -> Session.resolve -> abstract tree; per-verb step lemmas over the reference dispatch table, tree "
+    "bookkeeping by the C17 graft lemmas); tied to the code by differential correspondence on a metacharacter-biased name "
+    "generator (quote-bearing names are ordinary cases), a bounded-exhaustive stream over the PWD formatter/parser pair, "
+    "wire-level sessions over loopback comparing the backend tree with the expected one after every operation, and the session "
+    "model run on the command lines the real client sent in those sessions"
 )
 LEVEL_TEXT = (
-    "C08_cmd_path_roundtrip, C08_cmd_path_resolved, C08_mlsd_name_roundtrip, C08_build_mlsx_shape, C08_mlst_name_roundtrip are "
-    "proved for every valid name (any length, any code points, any depth); the PWD round trip is proved at full strength "
-    "(C08_pwd_roundtrip: every well-formed directory whose string has no LF, double quotes anywhere - leading, trailing, doubled, "
-    "runs - through Server.pwd's doubling, the C06 reply framing and the client's undoubling loop; C08_pwd_roundtrip_valid, "
-    "C08_pwd_line_roundtrip, C08_pwd_trailing_text_ignored); the LIST fallback is proved for names without leading whitespace "
-    "(C08_list_name_roundtrip_partial) and refuted otherwise (C08_list_name_leading_space_refuted, finding F13, not repaired: "
-    "inherent to the ls -l format). All Closed under the global context. The composed statement over whole sessions is validated "
-    "at wire level, not proved."
+    "C08_name_transparent (composed statement, proved): for every user table, logged-in world, working directory of any depth and "
+    "valid path p (any code points, relative or absolute) denoting a free name n in an existing read/writable directory: MKD creates "
+    "exactly that node, CWD enters it and PWD's reply decodes to its path, MLSD of the parent lists exactly one entry named n whose "
+    "line decodes to n, MLST asks the backend about exactly it, STOR/RETR below it round-trip the bytes, DELE, RNFR/RNTO to a free "
+    "sibling and RMD act on exactly it; built from C08_resolve_to_str, C08_event_of_client_line and the per-command theorems "
+    "C08_nt_cwd_pwd, C08_nt_listing, C08_nt_stor_retr, C08_nt_rename (from every ready world), C08_session_table_is_reference "
+    "(re-checked each run). Codec theorems for every valid name: C08_cmd_path_roundtrip, C08_cmd_path_resolved, "
+    "C08_mlsd_name_roundtrip, C08_build_mlsx_shape, C08_mlst_name_roundtrip, C08_pwd_roundtrip (full strength, quotes anywhere), "
+    "C08_pwd_roundtrip_valid, C08_pwd_line_roundtrip, C08_pwd_trailing_text_ignored. The LIST fallback is carved out exactly "
+    "where it bites: the session part (C08_nt_listing) holds for LIST too, the client's decoding is proved for names without "
+    "leading whitespace (C08_list_name_roundtrip_partial) and refuted otherwise (C08_list_name_leading_space_refuted, finding "
+    "F13, inherent to the ls -l format). All Closed under the global context."
 )
 LEVEL_NOTE = (
     "Trusted: Coq kernel, extraction cross-checked with vm_compute, harness. Assumed: the utf-8 codec round-trips and commutes with "
     "line splitting (C06). Modelled not verified: CPython str methods (str.replace with a one-character pattern as flat_map), "
-    "pathlib (C02). name_transparent over sessions is validated over loopback only; symlink branch of the LIST parser and "
-    "date/mode parsing (C07) are outside."
+    "pathlib (C02), the session model Model/Session.v itself (tied to the server by C05's conformance and, for the names of this "
+    "property, by the session-model stream here). Outside the composed theorem: RNTO into another directory, STOR onto an existing "
+    "file / APPE / REST offsets, permission refusals, concurrency; the symlink branch of the LIST parser and date/mode parsing (C07)."
 )
 TRUSTED = [
     "codec assumption of C06 (utf-8 decode(encode(t)) = t, commutes with splitting at byte 10)",
     "pathlib model of C02 (Lib/PosixPath.v)",
+    "sequential session model Model/Session.v with the reference dispatch table (C05; table re-checked against server.py each run)",
 ]
 ASSUMPTIONS = [
-    "the composed statement (create, enter, PWD, list, stat, upload, download, rename, delete denote the same node) is validated over real loopback sessions, not proved",
+    "the composed statement is about the sequential session model; that the real server behaves like it for the generated names is validated (wire-level sessions; model run on the client's real command lines), not proved",
     "names are Unicode text encodable in utf-8 (lone surrogates are outside)",
 ]
 
@@ -328,13 +337,31 @@ def stream_codecs(ctx, xcheck):
 
 
 # ---------------------------------------------------------------- wire level
-async def wire_names(ctx, cases):
+async def wire_names(ctx, cases, sessions=None):
     P = pathlib.PurePosixPath
     n_ops = 0
     async with wire.Pair(None, {}) as p:
         c = p.client
+        # every command line the client really sends, with the first reply code it got (for the session model)
+        log = []
+        real_command = c.command
+
+        async def logged_command(command=None, expected_codes=(), wait_codes=(), censor_after=None):
+            try:
+                r = await real_command(command, expected_codes, wait_codes, censor_after=censor_after)
+            except errors.StatusCodeError as e:
+                if command:
+                    log.append((command, str(e.received_codes[-1])))
+                raise
+            if command:
+                log.append((command, str(r[0])))
+            return r
+
+        c.command = logged_command
         for comps, other in cases:
             p.server.path_io_factory.state[:] = wire.mem_state({})
+            del log[:]
+            payloads, obs = [], {"pwd": [], "retr": [], "listed": []}
             await c.change_directory("/")
             path = P("/", *comps)
             name = comps[-1]
@@ -363,10 +390,12 @@ async def wire_names(ctx, cases):
                     continue
                 await c.change_directory(path)
                 cwd = await c.get_current_directory()
+                obs["pwd"].append(str(cwd))
                 n_ops += 2
                 if cwd != path:
                     bad("pwd", f"reported {str(cwd)!r}", shape(comps))
                 # from inside: relative name
+                payloads.append(data)
                 async with c.upload_stream(name) as s:
                     await s.write(data)
                 n_ops += 1
@@ -374,10 +403,12 @@ async def wire_names(ctx, cases):
                     bad("stor-relative", f"tree {p.tree()!r}")
                 await c.change_directory("/")
                 listed = sorted((str(q), i["type"]) for q, i in await c.list(path))
+                obs["listed"].append(sorted(q.rsplit("/", 1)[-1] for q, _ in listed))
                 n_ops += 1
                 if listed != [(str(path / name), "file")]:
                     bad("mlsd", f"listed {listed!r}")
                 listed2 = sorted((str(q), i["type"]) for q, i in await c.list(path, raw_command="LIST"))
+                obs["listed"].append(None)  # LIST: the names are compared by the oracle below, not with the model (F13)
                 n_ops += 1
                 if listed2 != [(str(path / name), "file")]:
                     bad("list", f"listed {listed2!r}", "leading-space" if name != name.lstrip() else "other")
@@ -389,9 +420,11 @@ async def wire_names(ctx, cases):
                     bad("mlst-dir", "not a directory")
                 async with c.download_stream(path / name) as s:
                     got = await s.read()
+                obs["retr"].append(got)
                 n_ops += 1
                 if got != data:
                     bad("retr", f"got {got!r}")
+                payloads.append(b"+")
                 async with c.append_stream(path / name) as s:
                     await s.write(b"+")
                 n_ops += 1
@@ -409,12 +442,134 @@ async def wire_names(ctx, cases):
                     bad("dele", f"tree {p.tree()!r}")
                 await c.remove_directory(path)
                 n_ops += 1
-                if p.tree() != (expect({}) if False else _parent_tree(comps)):
+                if p.tree() != _parent_tree(comps):
                     bad("rmd", f"tree {p.tree()!r}")
+                # the same node through RELATIVE spellings from inside its parent (the steps of C08_name_transparent)
+                parent = path.parent
+                await c.change_directory(parent)
+                await c.make_directory(P(name))
+                n_ops += 2
+                if p.tree() != expect({}):
+                    bad("mkd-rel", f"tree {p.tree()!r}")
+                    continue
+                here = sorted((str(q), i["type"]) for q, i in await c.list())  # the default path: 'MLSD' alone
+                obs["listed"].append(sorted(q for q, _ in here))
+                n_ops += 1
+                if here != [(name, "dir")]:
+                    bad("mlsd-parent", f"listed {here!r}")
+                there = sorted((str(q), i["type"]) for q, i in await c.list(parent))
+                obs["listed"].append(sorted(q.rsplit("/", 1)[-1] for q, _ in there))
+                n_ops += 1
+                if there != [(str(path), "dir")]:
+                    bad("mlsd-parent-abs", f"listed {there!r}")
+                code, info = await c.command("MLST " + name, "2xx")
+                n_ops += 1
+                st_name = c.parse_mlsx_line(info[1].lstrip())[0]
+                if st_name != P(name):
+                    bad("mlst-name", f"reply names {str(st_name)!r}")
+                await c.change_directory(P(name))
+                cwd = await c.get_current_directory()
+                obs["pwd"].append(str(cwd))
+                n_ops += 2
+                if cwd != path:
+                    bad("cwd-rel", f"PWD reported {str(cwd)!r}", shape(comps))
+                await c.change_directory("..")
+                cwd = await c.get_current_directory()
+                obs["pwd"].append(str(cwd))
+                n_ops += 2
+                if cwd != parent:
+                    bad("cdup", f"PWD reported {str(cwd)!r}", shape(comps))
+                if other != name:
+                    await c.rename(P(name), P(other))
+                    n_ops += 1
+                    if p.tree() != _nest(comps[:-1] + [other]):
+                        bad("rename-dir", f"tree {p.tree()!r}")
+                    await c.rename(P(other), P(name))
+                    if p.tree() != expect({}):
+                        bad("rename-dir-back", f"tree {p.tree()!r}")
+                await c.remove_directory(P(name))
+                n_ops += 1
+                if p.tree() != _parent_tree(comps):
+                    bad("rmd-rel", f"tree {p.tree()!r}")
+                if sessions is not None:
+                    sessions.append({"case": ["/".join(comps), other], "log": list(log), "payloads": list(payloads), "obs": obs,
+                                     "tree": p.tree(), "cwd": str(parent)})
             except (errors.StatusCodeError, errors.PathIOError, ValueError, KeyError, IndexError, ConnectionError, asyncio.TimeoutError) as e:
                 bad("exception", f"{type(e).__name__}: {e}")
                 break
     return n_ops
+
+
+def _nest(comps):
+    t = {}
+    for x in reversed(comps):
+        t = {x: t}
+    return t
+
+
+def _model_tree(m):
+    """decoded sx of a Session node -> nested dict {name: dict | bytes}"""
+    if m[0] == 0:
+        return bytes(m[1])
+    return {sx.txt(k): _model_tree(v) for k, v in m[1]}
+
+
+def session_inputs(sess):
+    """the lines the client really sent -> inputs of the session model (fn 70): the payload of each STOR/APPE, and the
+    peer's data connection right after each accepted EPSV/PASV"""
+    inputs, pl = [], list(sess["payloads"])
+    for line, code in sess["log"]:
+        verb = line.split(" ", 1)[0].upper()
+        if verb in ("STOR", "APPE"):
+            inputs.append([1, line + "\r\n", pl.pop(0)])
+        else:
+            inputs.append([0, line + "\r\n"])
+        if verb in ("EPSV", "PASV") and code.startswith("2"):
+            inputs.append([2])
+    return inputs
+
+
+def check_sessions(ctx, sessions, xcheck):
+    """Model/Session.v driven by the client's real lines (Model/NamesSession.irun) against what the real server did:
+    first reply code of every command, PWD texts, RETR bytes, listed names, final tree and working directory"""
+    if not sessions:
+        return
+    calls = [(70, [[1, []], session_inputs(x)]) for x in sessions]
+    out = ctx.model(calls)
+    n_lines = 0
+    for sess, (fn, arg), mo in zip(sessions, calls, out):
+        ctx.case(("session-model", tuple(sess["case"])))
+        if mo[0] != 0:
+            ctx.disagree("session-model", sess["case"], "model could not parse a line", [l for l, _ in sess["log"]])
+            continue
+        m_tree, m_cwd, outs = mo[1]
+        m_codes, m_pwd, m_retr, m_listed = [], [], [], []
+        for inp, o in zip(arg[1], outs):
+            if inp[0] == 2:
+                continue
+            codes = sx.txts(o[0])
+            m_codes.append(codes[0] if codes else None)
+            if codes[:1] == ["257"] and inp[1].upper().startswith("PWD"):
+                # the model records the 257 text as the server formats it (quotes doubled); the implementation side is
+                # the directory the client decoded from it, so undouble (the inverse on doubled strings)
+                m_pwd.append(sx.txt(o[1])[1:-1].replace('""', '"'))
+            if o[2]:
+                m_retr.append(bytes(o[2][0]))
+            if o[3]:
+                m_listed.append(sorted(sx.txt(e[0]) for e in o[3][0]))
+        n_lines += len(m_codes)
+        model = {"codes": m_codes, "pwd": m_pwd, "retr": m_retr, "tree": _model_tree(m_tree), "cwd": "/" + "/".join(sx.txts(m_cwd)),
+                 "listed": [a for a, b in zip(m_listed, sess["obs"]["listed"]) if b is not None]}
+        impl = {"codes": [c for _, c in sess["log"]], "pwd": sess["obs"]["pwd"], "retr": sess["obs"]["retr"], "tree": sess["tree"],
+                "cwd": sess["cwd"], "listed": [b for b in sess["obs"]["listed"] if b is not None]}
+        if len(m_listed) != len(sess["obs"]["listed"]):
+            model["listed"] = m_listed
+        if model != impl:
+            diff = {k: (repr(model[k]), repr(impl[k])) for k in model if model[k] != impl[k]}
+            ctx.disagree("session-model", sess["case"] + [[l for l, _ in sess["log"]]], {k: v[0] for k, v in diff.items()}, {k: v[1] for k, v in diff.items()})
+    xcheck.extend((fn, arg, mo) for (fn, arg), mo in list(zip(calls, out))[:4])
+    ctx.count("session_model_cases", len(sessions))
+    ctx.count("session_model_command_lines", n_lines)
 
 
 def _parent_tree(comps):
@@ -424,7 +579,7 @@ def _parent_tree(comps):
     return t
 
 
-def stream_wire(ctx):
+def stream_wire(ctx, xcheck=None):
     rng = ctx.rng
     n = 600 if ctx.tier == "thorough" else 160
     names = [x for x in SPECIAL if valid_name(x)]
@@ -437,8 +592,11 @@ def stream_wire(ctx):
         cases.append((comps, names[(i * 3 + 2) % len(names)]))
     # a few chunks so that one broken session does not hide the rest
     total = 0
+    sessions = []
     for k in range(0, len(cases), 20):
-        total += wire.run(wire_names(ctx, cases[k: k + 20]), timeout=600)
+        total += wire.run(wire_names(ctx, cases[k: k + 20], sessions), timeout=600)
+    if xcheck is not None and ctx.exe is not None:
+        check_sessions(ctx, sessions, xcheck)
     ctx.count("wire_name_cases", len(cases))
     ctx.count("wire_paths_with_quote", sum(any('"' in x for x in c) for c, _ in cases))
     ctx.count("wire_operations", total)
@@ -470,11 +628,19 @@ def correspondence(ctx):
         "and real parse_directory_response, same path back as oracle (with trailing text after the closing quote: against the model); (wire) "
         "real Server+Client over loopback: make_directory, change_directory, get_current_directory, upload_stream (relative), list "
         "(MLSD and raw LIST), stat, is_dir, download_stream, append_stream, rename there and back, remove, remove_directory, the "
-        "backend tree compared with the expected tree after every step. Non-trivial = distinct input."
+        "backend tree compared with the expected tree after every step; then from inside the parent with RELATIVE spellings: "
+        "make_directory, list() (MLSD alone) and list(parent): exactly one entry named n of type dir, raw MLST n: the reply's name, "
+        "change_directory(n) + PWD, change_directory('..') + PWD, rename of the directory to the other name and back, "
+        "remove_directory; (session-model) every command line the real client sent in a wire case (with the STOR/APPE payloads and "
+        "a data connection after each EPSV) is run through Model/NamesSession.irun (parse_command + Model/Session.v): first reply "
+        "code of every command, PWD texts, RETR bytes, listed names, final tree and working directory must equal what the real "
+        "server did. Non-trivial = distinct input."
     )
     xcheck = []
     stream_codecs(ctx, xcheck)
-    stream_wire(ctx)
+    xcheck2 = []
+    stream_wire(ctx, xcheck2)
+    xcheck = xcheck[:96] + xcheck2
     ok, out = core.vm_crosscheck(EXTRACT, xcheck[:100])
     ctx.extra["vm_compute_crosscheck"] = {"cases": len(xcheck[:100]), "agree": ok}
     if not ok:
